@@ -69,6 +69,18 @@ def build_driver(quiet=True):
         raise ExtractError("driver binary missing after build")
 
 
+def _package_name(repo):
+    import re
+    try:
+        with open(os.path.join(repo, "Cargo.toml")) as fh:
+            m = re.search(r'^name\s*=\s*"([^"]+)"', fh.read(), re.M)
+            if m:
+                return m.group(1)
+    except OSError:
+        pass
+    return "cw-multi-test"
+
+
 def tree_hash(repo):
     h = hashlib.sha256()
     files = [os.path.join(repo, "Cargo.toml"), os.path.join(repo, "Cargo.lock")]
@@ -109,7 +121,8 @@ def extract(config, repo=None, use_cache=True, log=None):
             return out
         target = os.path.join(WORK, "target", config)
         os.makedirs(target, exist_ok=True)
-        for p in glob.glob(os.path.join(target, "debug", ".fingerprint", "cw-multi-test-*")):
+        pkg = _package_name(repo)
+        for p in glob.glob(os.path.join(target, "debug", ".fingerprint", pkg + "-*")):
             shutil.rmtree(p, ignore_errors=True)
         nonce = uuid.uuid4().hex
         tmp_out = out + ".new"
@@ -147,7 +160,7 @@ def extract(config, repo=None, use_cache=True, log=None):
         try:
             root = os.path.join(WORK, "facts")
             ds = sorted((os.path.getmtime(os.path.join(root, d)), d) for d in os.listdir(root))
-            for _, d in ds[:-6]:
+            for _, d in ds[:-16]:
                 shutil.rmtree(os.path.join(root, d), ignore_errors=True)
         except OSError:
             pass
